@@ -149,7 +149,7 @@ V("C20", "year-needs-no-space-variants", "F", "R1", EXP,
   'r"(?P<copyright>(?P<prefix>©)\\s+"\n        r"((?P<year>\\d{4}-\\d{4}|\\d{4}),?\\s+)?"')
 V("C20", "builder-drops-year", "F", "R2", CPP, '        return f"{prefix} {year} {statement}"\n', '        return f"{prefix} {statement}"\n')
 V("C20", "builder-reprefixes-notices", "F", "R2", CPP,
-  "    for pattern in _COPYRIGHT_PATTERNS:\n        match = pattern.search(statement)\n        if match is not None:\n            return statement\n", "")
+  "    for pattern in _COPYRIGHT_PATTERNS:\n        # Only a statement that begins with a copyright tag is a complete\n        # notice. A holder that merely contains the word (e.g. 'The Copyright\n        # Holders') still needs its prefix and year.\n        match = pattern.match(statement)\n        if match is not None:\n            return statement\n", "")
 V("C20", "merge-min-min", "F", "R3", CPP, 'year = f"{min(years)} - {max(years)}"', 'year = f"{min(years)} - {min(years)}"')
 V("C20", "merge-skips-yearless", "F", "R3", CPP, "        # get year range if any\n", "        if not line_info['year']:\n            continue\n        # get year range if any\n")
 V("C20", "get-year-first-only", "F", "R4", R + "cli/annotate.py", 'year = f"{min(years)} - {max(years)}"', 'year = years[0]')
@@ -455,8 +455,8 @@ B("C04", "plus-equals-instead-of-extend", PRJ, "        result.extend(global_res
 B("C12", "find-instead-of-in", EXP, "    if REUSE_IGNORE_START in text:\n        ignore_start = text.index(REUSE_IGNORE_START)", "    if text.find(REUSE_IGNORE_START) != -1:\n        ignore_start = text.index(REUSE_IGNORE_START)")
 B("C01", "exit-via-local", R + "cli/lint.py", "    sys.exit(0 if report.is_compliant else 1)", "    exit_code = 0 if report.is_compliant else 1\n    sys.exit(exit_code)")
 B("C04", "slice-reverse", GLP, "        for item in reversed(self.annotations):", "        for item in self.annotations[::-1]:")
-B("C20", "any-search", CPP, "    for pattern in _COPYRIGHT_PATTERNS:\n        match = pattern.search(statement)\n        if match is not None:\n            return statement\n",
-  "    if any(pattern.search(statement) is not None for pattern in _COPYRIGHT_PATTERNS):\n        return statement\n")
+B("C20", "any-match", CPP, "    for pattern in _COPYRIGHT_PATTERNS:\n        # Only a statement that begins with a copyright tag is a complete\n        # notice. A holder that merely contains the word (e.g. 'The Copyright\n        # Holders') still needs its prefix and year.\n        match = pattern.match(statement)\n        if match is not None:\n            return statement\n",
+  "    if any(pattern.match(statement) is not None for pattern in _COPYRIGHT_PATTERNS):\n        return statement\n")
 B("C06", "ids-as-literal", RPT,
   "                    identifiers = {identifier}\n                    if (\n                        plus_identifier := _strip_plus_from_identifier(\n                            identifier\n                        )\n                    ) != identifier:\n                        identifiers.add(plus_identifier)\n",
   "                    identifiers = {identifier, _strip_plus_from_identifier(identifier)}\n")
@@ -535,3 +535,6 @@ for _p in ("C19", "C15", "C11"):
                      "patchfile": _os.path.join(_BP, "c19-download-one-helper.diff")})
 V("C16", "unhashable-toml-values", "F", "R1", GLP, "        try:\n            return set(value)\n        except TypeError:\n", "        try:\n            return set(value)\n        except ValueError:\n")
 V("C16", "gitmodules-valueless-key", "F", "R1", R + "vcs.py", '            Path(entry.split("\\n", 1)[1])\n            for entry in submodule_entries\n            if "\\n" in entry\n', '            Path(entry.splitlines()[1])\n            for entry in submodule_entries\n')
+for _p in ("C08", "C10"):
+    V(_p, "block-end-needs-bare-delimiter", "F", "R4", R + "comment.py", "                if line.rstrip().endswith(cls.MULTI_LINE.end):\n", "                if line.endswith(cls.MULTI_LINE.end):\n")
+V("C20", "notice-test-unanchored", "F", "R2", CPP, "        match = pattern.match(statement)\n", "        match = pattern.search(statement)\n")
